@@ -164,10 +164,10 @@ func propTable() map[string]PropSpec {
 	t["C03"] = PropSpec{
 		ID: "C03", Pkg: coordPkg, LoadPkgs: []string{"tkestack.io/kvass/pkg/sidecar"}, NativeDir: "coordinator",
 		Quick:    append([]HarnessRun{H("VAssign", 6, 2, 2), H("VCycle", 12, 1, 1, 0), H("VCycle", 6, 2, 0, 0), {Entry: "VUpdateTarget", Pkg: "tkestack.io/kvass/pkg/shard", Args: []int{2}, Cosim: 4}, L("VLoop", 8, 2, 1, 5, 0)}, lemmas...),
-		Thorough: append([]HarnessRun{H("VAssign", 6, 3, 2), H("VCycle", 12, 1, 1, 0), H("VCycle", 8, 1, 2, 0), H("VCycle", 8, 2, 1, 8), H("VCycle", 8, 2, 1, 0), L("VLoop", 8, 2, 1, 5, 0), L("VLoop", 8, 3, 1, 6, 0), {Entry: "VUpdateTarget", Pkg: "tkestack.io/kvass/pkg/shard", Args: []int{3}, Cosim: 4}}, lemmas...),
+		Thorough: append([]HarnessRun{H("VAssign", 6, 3, 2), H("VCycle", 12, 1, 1, 0), H("VCycle", 8, 1, 2, 0), H("VCycle", 8, 2, 1, 8), H("VCycle", 8, 2, 1, 0), L("VLoop", 8, 2, 1, 5, 0), L("VLoop", 8, 3, 1, 6, 0), {Entry: "VLoop", Args: []int{2, 2, 6, 16}, Subst: swr, Unwind: 40, Cosim: 0, MergeAt: []string{coordPkg + ".vLoopCycle"}}, {Entry: "VUpdateTarget", Pkg: "tkestack.io/kvass/pkg/shard", Args: []int{3}, Cosim: 4}}, lemmas...),
 		Required: []string{"c03.placed", "c03.allinsync", "c03.stability.checked", "assign.placed", "shard.update.keys.same", "loop.ran", "loop.end", "loop.overloaded"},
 		Prefixes: []string{"C03.", "C01.shard.update.", "C01.c.loop."},
-		Bounds:   "multi-cycle layer: closed loop of the real coordinator with S=2 (thorough 3) real sidecar bookkeepers (TargetsManager + runtimeInfo over the abstract store), K=1 target of concrete size, limits 1000 / 500-or-none, max-idle-time 0 or 1h, every initial placement (absent / normal / in_transfer per shard, scraped or not, shard 0 overloaded or not), 3 scrapes per assigned target and 2 h between cycles: converged within H=5 (6) cycles and one further cycle changes nothing; single-cycle layer: scale-up clause, at-most-once / normal-state placement, placement-when-room (K=1) and the no-op-from-a-converged-state clause on whole cycles at (S,K) = (1,1), (2,0) (thorough + (1,2), (2,1)); assignNoScrapingTargets lemma with S<=2 (3), K<=2",
+		Bounds:   "multi-cycle layer: closed loop of the real coordinator with S=2 (thorough 3) real sidecar bookkeepers (TargetsManager + runtimeInfo over the abstract store), K=1 target of concrete size, limits 1000 / 500-or-none, max-idle-time 0 or 1h, every initial placement (absent / normal / in_transfer per shard, scraped or not, shard 0 overloaded or not), 3 scrapes per assigned target and 2 h between cycles: converged within H=5 (6) cycles and one further cycle changes nothing; thorough adds one K=2 scenario (two targets spread over two shards, every scrape / limit / idle-time variant, 6 cycles, equal states merged at cycle boundaries); single-cycle layer: scale-up clause, at-most-once / normal-state placement, placement-when-room (K=1) and the no-op-from-a-converged-state clause on whole cycles at (S,K) = (1,1), (2,0) (thorough + (1,2), (2,1)); assignNoScrapingTargets lemma with S<=2 (3), K<=2",
 		Assume:   wfAssumptions,
 		Outside:  append([]string{"closed loops with more than one target (K>=2 explodes: >10^5 iteration orders per cycle) or with symbolic sizes: the multi-cycle layer uses K=1 and concrete sizes, the capacity questions are decided only per cycle", "later growth of series and targets added or removed during the run", "single-cycle stability is asserted for max-idle-time = 0 only"}, cycleOutside...),
 	}
